@@ -84,6 +84,7 @@ class Ledger:
         self.functions = set()
         self.floors = []      # (rule, what, found, floor)
         self.deficits = []
+        self._soft = None
         self.cmds = []        # external parser command lines (clang)
         self.assumptions = []
         self.explanation = explanation
@@ -106,8 +107,31 @@ class Ledger:
     def fn(self, relpath, qualname):
         self.functions.add("%s:%s" % (relpath, qualname))
 
+    def structural(self, name, fn, *a, **kw):
+        """Run a structural (for-all-inputs) proof attempt of a rule group whose alarm decision was already taken
+        by folding the code on boundary witnesses. Its outcome is recorded in the evidence ("closed": the clause is
+        proven for every input on this tree; "open": the code has a shape the structural rule does not recognise -
+        then only the witnesses were decided) and never raises an alarm by itself."""
+        rec = {"obligations": 0, "open": []}
+        prev = self._soft
+        self._soft = rec
+        try:
+            fn(*a, **kw)
+        except AnalysisError as e:
+            rec["open"].append("not recognised: %s" % str(e)[:160])
+        finally:
+            self._soft = prev
+        self.extra.setdefault("structural_proofs", {})[name] = {
+            "obligations": rec["obligations"], "closed": not rec["open"], "open": rec["open"][:5]}
+        return not rec["open"]
+
     def ob(self, rule, file, func, key, required, found, ok, line=None,
            note=None):
+        if self._soft is not None:
+            self._soft["obligations"] += 1
+            if not ok:
+                self._soft["open"].append("%s: %s (expected %s, found %s)" % (rule, _short(key, 160), _short(required, 80), _short(found, 80)))
+            return None
         o = Ob(rule, file, func, _short(key, 400), _short(required),
                _short(found), ok, line, note)
         # the same construct may be visited twice (e.g. per scenario); keep
@@ -131,6 +155,10 @@ class Ledger:
                        found == required, line, note)
 
     def floor(self, rule, what, found, floor):
+        if self._soft is not None:
+            if found < floor:
+                self._soft["open"].append("%s: %s: found %s, expected at least %s" % (rule, what, found, floor))
+            return
         self.floors.append((rule, what, found, floor))
         if found < floor:
             # deferred: a recognised violation takes precedence over "cannot
